@@ -389,6 +389,9 @@ func c10Run(c *core.Ctx, long bool) {
 	}
 	if finalState != nil {
 		c.Max("sharper_residual_reported_only/"+model, lhs+storage(finalState)-rhs)
+		if c.R.Bool(0.25) {
+			CheckEmptyRun(c, model, run.Sets, [][]float64{finalState})
+		}
 	}
 	if closure && finalState != nil {
 		c.Tag("GR4J:closure")
